@@ -376,8 +376,7 @@ Proof.
   sbind. apply sound_load_lrv.
   destruct a1 as [r v].
   destruct ((length r =? 0) || (s_len v =? 0)). apply IH; auto.
-  sbind. apply sound_st_string_bytes. apply sub_window_nil.
-  sbind. apply sound_read_bytes.
+  cbv zeta.
   match goal with |- context [existsb (bytes_eqb ?x) keys] => destruct (existsb (bytes_eqb x) keys) end. apply IH; auto.
   sbind. instantiate (1 := sub_window). destruct e. apply sound_ret; auto. apply sound_append_bytes; auto.
   sbind. instantiate (1 := sub_window). destruct (bytes_eqb r nil_lang_ref); [|apply sound_ret; auto].
